@@ -3,8 +3,14 @@ package main
 import (
 	"bufio"
 	"encoding/json"
+	"errors"
+	"io"
 	"math/rand"
 	"os"
+	"sync"
+	"sync/atomic"
+
+	"github.com/bluenviron/gomavlib/v3/pkg/frame"
 )
 
 func init() { cmds["gate"] = cmdGate }
@@ -102,5 +108,77 @@ func cmdGate(o opts) {
 			em.put(g, d2, -1, "eof", []int{3}, false, cfg, false, "sandwich")
 		}
 	}
+	// several readers sharing ONE dialect.ReadWriter (what the channels of a node do), each decoding valid frames of many
+	// different message types at full speed: every frame must still be delivered
+	var base []byte
+	for _, v := range vecs {
+		base = append(base, v.Bytes...)
+	}
+	passes := 40000/len(vecs) + 1
+	if thorough {
+		passes *= 10
+	}
+	const nread = 4
+	delivered := make([]int, nread)
+	perr := make([]int, nread)
+	var pan atomic.Bool
+	var wg sync.WaitGroup
+	for g := 0; g < nread; g++ {
+		wg.Add(1)
+		go func(g int) {
+			defer wg.Done()
+			defer func() {
+				if x := recover(); x != nil {
+					pan.Store(true)
+				}
+			}()
+			// reader g starts a quarter of the way further into the sequence of message types
+			off := 0
+			for i := 0; i < (len(vecs)*g)/nread; i++ {
+				off += len(vecs[i].Bytes)
+			}
+			one := append(append([]byte{}, base[off:]...), base[:off]...)
+			src := &repeatReader{data: one, left: passes}
+			rd := &frame.Reader{BufByteReader: bufio.NewReaderSize(src, 512), DialectRW: cfg.drw}
+			if err := rd.Initialize(); err != nil {
+				return
+			}
+			for {
+				_, err := rd.Read()
+				if err == nil {
+					delivered[g]++
+					continue
+				}
+				var re frame.ReadError
+				if errors.As(err, &re) {
+					perr[g]++
+					continue
+				}
+				return
+			}
+		}(g)
+	}
+	wg.Wait()
+	rec.Put(M{"e": "CONC", "in": B(base), "dl": cfg.dl, "passes": passes, "delivered": delivered, "perr": perr, "panic": pan.Load()})
 	rec.Close()
+}
+
+// repeatReader delivers data `left` times over
+type repeatReader struct {
+	data []byte
+	pos  int
+	left int
+}
+
+func (r *repeatReader) Read(p []byte) (int, error) {
+	if r.left <= 0 {
+		return 0, io.EOF
+	}
+	n := copy(p, r.data[r.pos:])
+	r.pos += n
+	if r.pos >= len(r.data) {
+		r.pos = 0
+		r.left--
+	}
+	return n, nil
 }
